@@ -119,6 +119,10 @@ MUTANTS = [
             return false;
         }
         false""", ['C05']),
+    ('with_capacity_rejects_limit', ST, 'if capacity > MAX_DATA_CAPACITY as usize {', 'if capacity >= MAX_DATA_CAPACITY as usize {', ['C12']),
+    ('from_any_panics_on_match', 'src/entity.rs', """    pub fn from_any(entity: EntityAny) -> Self {
+        if entity.archetype_id() != A::ARCHETYPE_ID {""", """    pub fn from_any(entity: EntityAny) -> Self {
+        if entity.archetype_id() != A::ARCHETYPE_ID || entity.archetype_id() == 255 {""", ['C14']),
     ('panic_in_critical_section', ST, 'self.version = next_version;', 'self.version = self.version.next();', ['C10']),
 ]
 
